@@ -617,6 +617,13 @@ pub fn gen_desc(r: &mut StdRng, o: &GenOpts) -> Desc {
                 ImpKind::Global(d.globals.len() as u32 - 1)
             }
         };
+        // import names need not be unique: now and then reuse the (module, field) of an earlier import
+        let (module, field) = if !d.imports.is_empty() && r.gen_bool(0.2) {
+            let prev = d.imports.choose(r).unwrap();
+            (prev.module.clone(), prev.field.clone())
+        } else {
+            (module, field)
+        };
         d.imports.push(Imp { module, field, kind });
     }
     // ---- local funcs (declared now, bodies later)
